@@ -15,6 +15,16 @@ An abstract method (plain JSON-able dict, produced by the Hypothesis strategy `a
        ['goto', target_pos, width]                              width None (smallest) | 16 | 32
        ['packed', AA, payload_index] ['sparse', AA, payload_index] ['fill', AA, payload_index]
        ['return-void'] ['return', mnemonic, AA] ['throw', AA]
+  target_pos (if / ifz / goto / switch payload 'targets'): an instruction position, or an OUT-OF-METHOD target
+       ['out', 'neg', k]   the code unit k >= 1 units BEFORE the method's first instruction (absolute unit -k)
+       ['out', 'end', k]   the code unit k >= 0 units after the last code unit of the insns array (k = 0: exactly
+                           at the end; the array includes trailing payloads)
+       ['out', 'far', d]   the raw relative offset d (code units; +-0x7fff / -0x8000 for 16-bit offsets,
+                           +-0x7fffffff / -0x80000000 for goto/32 and switch cases); lowering asserts that it
+                           leaves the method
+       Such a target designates no instruction of the method. Targets inside the method that are not the start of
+       an instruction (middle of an instruction, inside a payload) are never generated: androguard links them to the
+       block that contains the address, and the statements of C10/C11 do not clearly say whether that is right.
   payload: {'kind': 'packed', 'first_key': k, 'targets': [pos...], 'after': None|pos, 'align': 'align'|'raw'|'odd'}
            {'kind': 'sparse', 'keys': [...], 'targets': [pos...], ...}
            {'kind': 'fill', 'width': w, 'data': hex, ...}
@@ -79,7 +89,21 @@ REFS = [
 # ---------------------------------------------------------------------------------------------------
 # lowering
 # ---------------------------------------------------------------------------------------------------
-def _ins_of(op, ix):
+def is_out(t):
+    """target designates an address outside the method (see the module docstring)"""
+    return isinstance(t, (list, tuple))
+
+
+def _tgt(t, key, out):
+    """asm target of abstract target t: label name, or the raw relative offset resolved by _assemble"""
+    if not is_out(t):
+        return 'L%d' % t
+    if t[1] == 'far':
+        return t[2]
+    return (out or {}).get(key, -1 if t[1] == 'neg' else 1)     # placeholder until the layout is known
+
+
+def _ins_of(op, ix, i=None, out=None):
     k = op[0]
     if k == 'plain':
         return A.Ins(op[1]['ins'], **op[1]['fields'])
@@ -98,11 +122,11 @@ def _ins_of(op, ix):
             fields[fld] = ix.m(ref[1], ref[2], ref[3], tuple(ref[4]))
         return A.Ins(name, **fields)
     if k == 'if':
-        return A.Ins(op[1], A=op[2], B=op[3], target='L%d' % op[4])
+        return A.Ins(op[1], A=op[2], B=op[3], target=_tgt(op[4], ('i', i), out))
     if k == 'ifz':
-        return A.Ins(op[1], AA=op[2], target='L%d' % op[3])
+        return A.Ins(op[1], AA=op[2], target=_tgt(op[3], ('i', i), out))
     if k == 'goto':
-        return A.Goto('L%d' % op[1], op[2])
+        return A.Goto(_tgt(op[1], ('i', i), out), op[2])
     if k in ('packed', 'sparse', 'fill'):
         name = {'packed': 'packed-switch', 'sparse': 'sparse-switch', 'fill': 'fill-array-data'}[k]
         return A.Ins(name, AA=op[1], target='P%d' % op[2])
@@ -125,9 +149,10 @@ def _payload_item(pl, k, base, raw_targets=None, align=True):
     return A.SparseSwitchPayload(pl['keys'], targets, align=align, base=base)
 
 
-def lower(am, ix=None, _raw=None, _nops=None):
+def lower(am, ix=None, _raw=None, _nops=None, _out=None):
     """abstract method -> asm item list. _raw: {payload index: raw target list}; _nops: {payload index: n}
-    (extra nop instructions in front of a payload, used to force odd placement)"""
+    (extra nop instructions in front of a payload, used to force odd placement); _out: {('i', pos) | ('p', payload
+    index, case index): raw relative offset} of the out-of-method 'neg' / 'end' targets"""
     ins = am['ins']
     users = {}
     for i, op in enumerate(ins):
@@ -152,12 +177,14 @@ def lower(am, ix=None, _raw=None, _nops=None):
             raw = [0] * len(pl['shared_sel'])
         if raw is None and pl['kind'] != 'fill' and base is None:
             raw = [0] * len(pl['targets'])          # unreferenced payload (does not happen in generated methods)
+        if raw is None and pl['kind'] != 'fill':
+            raw = [_tgt(t, ('p', k, j), _out) for j, t in enumerate(pl['targets'])]
         out.append(_payload_item(pl, k, base, raw, align=(pl.get('align', 'align') == 'align')))
 
     out = []
     for i, op in enumerate(ins):
         out.append(A.Label('L%d' % i))
-        out.append(_ins_of(op, ix))
+        out.append(_ins_of(op, ix, i, _out))
         for k in after.get(i, ()):
             emit_payload(k)
     for k in tail:
@@ -169,13 +196,15 @@ def _assemble(am, ix):
     """lower + assemble, resolving shared switch payloads and forced odd placement (layout fixpoint)"""
     raw = {}
     nops = {}
+    outd = {}
     ins = am['ins']
     users = {}
     for i, op in enumerate(ins):
         if op[0] in ('packed', 'sparse', 'fill'):
             users.setdefault(op[2], []).append(i)
-    for _round in range(2 * len(am['payloads']) + 2):
-        src = lower(am, ix, raw, nops)
+    outs = out_targets(am)
+    for _round in range(2 * len(am['payloads']) + 2 * len(outs) + 4):
+        src = lower(am, ix, raw, nops, outd)
         asm = A.assemble(src)
         changed = False
         # forced odd placement, one payload at a time in emission order
@@ -201,9 +230,39 @@ def _assemble(am, ix):
             if raw.get(k) != want:
                 raw[k] = want
                 changed = True
+        # out-of-method targets: absolute unit -k / total + k -> offset relative to the branching instruction
+        total = len(asm.code) // 2
+        for (key, i, t) in outs:
+            here = asm.labels['L%d' % i]
+            if t[1] == 'far':
+                if 0 <= here + t[2] < total:
+                    raise AssertionError('far target %r of instruction %d stays inside the method' % (t, i))
+                continue
+            want = (-t[2] if t[1] == 'neg' else total + t[2]) - here
+            if outd.get(key) != want:
+                outd[key] = want
+                changed = True
         if not changed:
             return src, asm
     raise AssertionError('layout did not converge')
+
+
+def out_targets(am):
+    """[(key, position of the branching instruction, target)] for every out-of-method target that is emitted
+    (key as in lower(_out=...); the targets of a shared switch payload are replaced by 'shared_sel')"""
+    res = []
+    for i, op in enumerate(am['ins']):
+        if op[0] in ('if', 'ifz', 'goto'):
+            t = op[{'if': 4, 'ifz': 3, 'goto': 1}[op[0]]]
+            if is_out(t):
+                res.append((('i', i), i, t))
+        elif op[0] in ('packed', 'sparse'):
+            pl = am['payloads'][op[2]]
+            if 'shared_sel' not in pl:
+                for j, t in enumerate(pl['targets']):
+                    if is_out(t):
+                        res.append((('p', op[2], j), i, t))
+    return res
 
 
 def assemble_method(am, ix=None):
@@ -267,19 +326,19 @@ def build_dex(methods, version='035'):
 # measured shape features
 # ---------------------------------------------------------------------------------------------------
 def branch_targets(am):
-    """positions that are explicit branch / switch targets"""
-    out = set()
+    """positions that are explicit branch / switch targets (out-of-method targets are no positions)"""
+    out = []
     for op in am['ins']:
         if op[0] == 'if':
-            out.add(op[4])
+            out.append(op[4])
         elif op[0] == 'ifz':
-            out.add(op[3])
+            out.append(op[3])
         elif op[0] == 'goto':
-            out.add(op[1])
+            out.append(op[1])
     for pl in am['payloads']:
         if pl['kind'] != 'fill' and 'shared_sel' not in pl:
-            out.update(pl['targets'])
-    return out
+            out.extend(pl['targets'])
+    return {t for t in out if not is_out(t)}
 
 
 def features(am, low=None):
@@ -287,11 +346,28 @@ def features(am, low=None):
     ins = am['ins']
     n = len(ins)
     bt = branch_targets(am)
+    def oob(t, where):
+        # out-of-method target shapes (measured): where it points and which kind of instruction carries it
+        f.add('oob-target')
+        f.add('oob-in:' + where)
+        if t[1] == 'neg':
+            f.add('oob:before-start')
+            if t[2] == 1:
+                f.add('oob:one-unit-before-start')
+        elif t[1] == 'end':
+            f.add('oob:exactly-at-end' if t[2] == 0 else 'oob:beyond-end')
+        else:
+            f.add('oob:far-16bit' if abs(t[2]) <= 0x8000 else 'oob:far-32bit')
+            f.add('oob:far-negative' if t[2] < 0 else 'oob:far-positive')
+
     for i, op in enumerate(ins):
         k = op[0]
         if k in ('if', 'ifz'):
             t = op[4] if k == 'if' else op[3]
             f.add('if')
+            if is_out(t):
+                oob(t, 'if')
+                continue
             if t == i + 1:
                 f.add('if-target-is-fallthrough')
             if t <= i:
@@ -301,6 +377,11 @@ def features(am, low=None):
         elif k == 'goto':
             f.add('goto')
             f.add('goto-width-%s' % op[2])
+            if is_out(op[1]):
+                oob(op[1], 'goto')
+                if i == n - 1:
+                    f.add('oob-in:last-instruction')
+                continue
             if op[1] <= i:
                 f.add('back-edge')
             if op[1] == i:
@@ -317,11 +398,17 @@ def features(am, low=None):
             if 'shared_sel' in pl:
                 f.add('shared-payload')
             else:
-                if len(set(pl['targets'])) < len(pl['targets']):
+                inm = [t for t in pl['targets'] if not is_out(t)]
+                for t in pl['targets']:
+                    if is_out(t):
+                        oob(t, 'switch')
+                if size and not inm:
+                    f.add('oob:all-cases-of-a-switch')
+                if len(set(inm)) < len(inm):
                     f.add('switch-duplicate-targets')
-                if any(t <= i for t in pl['targets']):
+                if any(t <= i for t in inm):
                     f.add('back-edge')
-                if 0 in pl['targets']:
+                if 0 in inm:
                     f.add('branch-to-0')
         elif k == 'fill':
             f.add('fill-array-data')
@@ -360,7 +447,7 @@ def features(am, low=None):
                 ts = [op[3]]
             elif op[0] == 'goto':
                 ts = [op[1]]
-            if any(t <= s for t in ts) and i >= e - 1:
+            if any(t <= s for t in ts if not is_out(t)) and i >= e - 1:
                 f.add('try-inside-loop')
         pairs, call = am['handlers'][h]
         if call is not None:
@@ -400,7 +487,30 @@ def abstract_method(max_ins=24, misalign=False, want_payload=False, want_try=Fal
         reg = st.integers(0, 15)
         reg8 = st.integers(0, 255)
 
+        # every 4th method may branch out of the method; there, every 4th target does
+        oob_method = draw(st.integers(0, 3)) == 0
+
+        def out_target():
+            c = draw(st.integers(0, 9))
+            if c <= 3:
+                return ['out', 'neg', draw(st.sampled_from([1, 1, 2, 3, 4, 7, 16, 200]))]
+            if c <= 5:
+                return ['out', 'end', 0]
+            if c <= 7:
+                return ['out', 'end', draw(st.sampled_from([1, 1, 2, 3, 8, 200]))]
+            return ['out', 'far', None]                      # the offset is chosen by the user (depends on its width)
+
+        def far(t, wide):
+            if is_out(t) and t[1] == 'far':
+                vals = [0x7fff, -0x7fff, -0x8000]
+                if wide:
+                    vals = vals[:2] + [0x7fffffff, -0x7fffffff, -0x80000000, 0x7fffffff, -0x80000000]
+                return ['out', 'far', draw(st.sampled_from(vals))]
+            return t
+
         def target(i):
+            if oob_method and draw(st.integers(0, 3)) == 0:
+                return out_target()
             # boosted: method start, the fall-through position, a near neighbour; else anywhere
             c = draw(st.integers(0, 9))
             if c == 0:
@@ -417,7 +527,7 @@ def abstract_method(max_ins=24, misalign=False, want_payload=False, want_try=Fal
 
         def new_switch_payload(kind, i):
             size = draw(st.sampled_from([0, 1, 1, 2, 2, 3, 4, 6]))
-            ts = [target(i) for _ in range(size)]
+            ts = [far(target(i), True) for _ in range(size)]
             if size >= 2 and draw(st.integers(0, 3)) == 0:
                 ts[draw(st.integers(0, size - 1))] = ts[0]          # duplicate target
             pl = {'kind': kind, 'targets': ts, 'after': None, 'align': 'align'}
@@ -448,7 +558,14 @@ def abstract_method(max_ins=24, misalign=False, want_payload=False, want_try=Fal
                 return ['return', draw(st.sampled_from(['return', 'return-wide', 'return-object'])), draw(reg8)]
             if c == 2:
                 return ['throw', draw(reg8)]
+            return goto(i)
+
+        def goto(i):
             t = target(i)
+            if is_out(t) and t[1] == 'far':
+                w = draw(st.sampled_from([None, 16, 32, 32]))
+                t = far(t, w != 16)
+                return ['goto', t, 32 if abs(t[2]) > 0x8000 else w]
             return ['goto', t, None if t == i else draw(st.sampled_from([None, None, 16, 32]))]
 
         for i in range(n):
@@ -469,7 +586,7 @@ def abstract_method(max_ins=24, misalign=False, want_payload=False, want_try=Fal
                 nm, fl = draw(st.sampled_from(SIMPLE))
                 ins.append(['plain', {'ins': nm, 'fields': dict(fl)}])
             elif c <= 11:
-                t = target(i)
+                t = far(target(i), False)
                 if t == i:                       # "the branch offset must not be 0"
                     t = i + 1
                 if draw(st.booleans()):
@@ -479,8 +596,7 @@ def abstract_method(max_ins=24, misalign=False, want_payload=False, want_try=Fal
                     ins.append(['ifz', draw(st.sampled_from(['if-eqz', 'if-nez', 'if-ltz', 'if-gez', 'if-gtz', 'if-lez'])),
                                 draw(reg8), t])
             elif c <= 13:
-                t = target(i)
-                ins.append(['goto', t, None if t == i else draw(st.sampled_from([None, None, 16, 32]))])
+                ins.append(goto(i))
             elif c <= 15:
                 kind = draw(st.sampled_from(['packed', 'sparse']))
                 if sw_payloads[kind] and draw(st.integers(0, 3)) == 0:
